@@ -163,6 +163,8 @@ func (h *HashMapOfValue) LaxEqual(thread *Thread, other value.Value) (bool, valu
 		return HashMapOfValueLaxEqual(thread, h, o)
 	case HashMap:
 		return HashMapOfValueLaxEqualInterface(thread, h, o)
+	case HashRecord:
+		return HashRecordLaxEqual(thread, h, o)
 	}
 
 	return false, value.Undefined
